@@ -39,7 +39,9 @@ def gen_program(rng, kind, depth=3):
     """typed expression program; returns (builder(mpc) -> list of secure nodes, description)"""
     ops = {'int': ['add', 'sub', 'mul', 'neg', 'cmul', 'lt', 'eq', 'ifelse', 'prod', 'sum', 'inprod', 'abs', 'mod', 'pow'],
            'fxp': ['add', 'sub', 'mul', 'neg', 'cmul', 'lt', 'sum', 'inprod', 'fmul'],
-           'fld': ['add', 'sub', 'mul', 'neg', 'cmul', 'recip', 'sum', 'prod', 'pow']}[kind]
+           'fld': ['add', 'sub', 'mul', 'neg', 'cmul', 'recip', 'sum', 'prod', 'pow'],
+           # tiny field: the retry loops of reciprocal / random bits (random mask 0 with probability 1/11) are taken often
+           'fldtiny': ['recip', 'recip', 'recip', 'mul', 'add', 'sub', 'cmul', 'eq']}[kind]
     plan = [(rng.choice(ops), rng.randrange(100), rng.randrange(100), rng.randrange(1, 9)) for _ in range(rng.randrange(4, 4 + 3 * depth))]
     vals = [rng.randrange(-40, 40) for _ in range(4)]
 
@@ -51,6 +53,9 @@ def gen_program(rng, kind, depth=3):
         elif kind == 'fxp':
             T = mpc.SecFxp(24, 8)
             inp = [T(v / 4) for v in vals]
+        elif kind == 'fldtiny':
+            T = mpc.SecFld(11)
+            inp = [T(v % 11) for v in vals]
         else:
             T = mpc.SecFld(1009)
             inp = [T(v % 1009) for v in vals]
@@ -87,6 +92,8 @@ def gen_program(rng, kind, depth=3):
                 r = a % (2 + c % 5)
             elif op == 'pow':
                 r = (a - a + T(2)) ** (c % 4)
+            elif op == 'recip' and kind == 'fldtiny':
+                r = 1 / (a * a + 1)             # -1 is a non-residue mod 11: the divisor is never 0
             elif op == 'recip':
                 r = 1 / (a * a + 1) if False else (a - a + T(3 + c)) / T(7)
             else:
@@ -143,11 +150,11 @@ def run(ctx):
     ctx._max_lines = ctx.scale(6000, 60000)
     lines, exps, metas = [], [], []
     cfgs = CFGS_T if ctx.thorough else CFGS
-    nprog = ctx.scale(5, 40)
+    nprog = ctx.scale(8, 48)
     for (m, t, no_prss) in cfgs:
         # (a) expression programs: every node + every internal coroutine result
         for k in range(nprog):
-            kind = ['int', 'fxp', 'fld'][k % 3]
+            kind = ['int', 'fxp', 'fld', 'fldtiny'][k % 4]
             build, desc = gen_program(rng, kind)
             seed = rng.randrange(10**9)
             mode = rng.choice(['random', 'starve', 'lazynet', 'eagernet'])
@@ -253,7 +260,7 @@ def search(ctx):
     rng = ctx.subrng('search')
     ctx._max_lines = 0
     for k in range(ctx.scale(300, 3000)):
-        m, t, no_prss = rng.choice(CFGS_T)
+        kind = ['int', 'fxp', 'fld', 'fldtiny'][k % 4]
         kind = ['int', 'fxp', 'fld'][k % 3]
         build, desc = gen_program(rng, kind)
         seed = rng.randrange(10**9)
